@@ -1067,6 +1067,440 @@ Section S1.
         | eapply lookups_grows; [apply Hinv | exact G1 | exact Hl] |].
       exists ρ2. split; [|exact L2]. cbn [app]. rewrite app_nil_r, run_app, R1. exact R2.
   Qed.
+  (* ================================================================== attribute parameters (stage S4, straight-line part)
+
+     The invariant `inv` above binds every Python variable to a graph value (BV).  `inva` also admits the binding of an
+     attribute parameter (BA): the converter re-materialises it at every use as Constant(value_<kind> = ref a)
+     [+ Cast(to=BOOL)], marked castable; its Python value is the scalar whose tensor that node denotes.  The lemmas below
+     are the lemmas above re-proved for `inva` (same proofs; the only new case is a variable bound to BA, attr_var_sound);
+     the `inv` versions are kept unchanged for Script/TranslateIf|For|NestProofs.v, which assume that every variable holds
+     a tensor (all_PT) and therefore cannot admit BA bindings as they stand. *)
+
+  Definition attr_tensor0 (a : string) (k : akind) : option V :=
+    match sem "" "Constant" [(akind_attr k, ARef a)] [] with
+    | Some [c] =>
+      match k with
+      | AKBool => match sem "" "Cast" [("to", AInt 9)] [Some c] with Some [cb] => Some cb | _ => None end
+      | _ => Some c
+      end
+    | _ => None
+    end.
+
+  Definition brel (ρ : env V) (cast : list string) (x : string) (pv : pval) (b : binding) : Prop :=
+    match b with
+    | BV n => rel ρ cast pv n
+    | BA k => exists l c, pv = PS V l c /\ attr_tensor0 x k = Some c
+    end.
+
+  Definition inva (pe : penv V) (sc : scopes) (ρ : env V) (st : tstate) : Prop :=
+    (forall x pv, plookup V pe x = Some pv -> exists b, scopes_find x sc = Some b /\ brel ρ (ts_castable st) x pv b) /\
+    (forall x, plookup V pe x = None -> scopes_find x sc = None) /\
+    st_ok ρ st.
+
+  Lemma inv_inva : forall pe sc ρ st, inv pe sc ρ st -> inva pe sc ρ st.
+  Proof.
+    intros pe sc ρ st (I1 & I2 & I3). split; [|split; [exact I2 | exact I3]].
+    intros x pv H. destruct (I1 x pv H) as (n & Hn & R). exists (BV n). split; [exact Hn | exact R].
+  Qed.
+
+  Lemma inva_grows : forall pe sc ρ ρ' st st', inva pe sc ρ st -> grows ρ ρ' st st' -> inva pe sc ρ' st'.
+  Proof.
+    intros pe sc ρ ρ' st st' (I1 & I2 & I3) G. split; [|split; [exact I2 | apply G]].
+    intros x pv H. destruct (I1 x pv H) as (b & Hn & R). exists b. split; [exact Hn|].
+    destruct b as [n|k]; [eapply rel_grows; eassumption | exact R].
+  Qed.
+
+  (* binding an attribute parameter: the Python side and the scope are extended together (shadowing included) *)
+  Lemma inva_bind_attr : forall pe sc ρ st a k l c,
+    inva pe sc ρ st -> attr_tensor0 a k = Some c -> inva ((a, PS V l c) :: pe) (bind_var a (BA k) sc) ρ st.
+  Proof.
+    intros pe sc ρ st a k l c (I1 & I2 & I3) Hc. split; [|split; [|exact I3]].
+    - intros y pw H. cbn [plookup] in H. rewrite scopes_find_bind. destruct (String.eqb y a) eqn:E.
+      + apply String.eqb_eq in E. subst y. inversion H; subst. exists (BA k). split; [reflexivity|]. exists l, c. auto.
+      + apply I1. exact H.
+    - intros y H. cbn [plookup] in H. rewrite scopes_find_bind. destruct (String.eqb y a); [discriminate | apply I2; exact H].
+  Qed.
+
+  (* an attribute parameter used as a value: Constant(value_<kind> = ref a) [+ Cast(to=BOOL)], castable *)
+  Lemma attr_var_sound : forall a k st n st' nodes ρ l c, st_ok ρ st ->
+    to_onnx_var (BA k) a st = Some (n, st', nodes) -> attr_tensor0 a k = Some c ->
+    exists ρ', run ρ nodes = Some ρ' /\ rel ρ' (ts_castable st') (PS V l c) n /\ grows ρ ρ' st st'.
+  Proof.
+    intros a k st n st' nodes ρ l c Hok H Hc. cbn [to_onnx_var] in H.
+    apply bind_some in H. destruct H as (r & st1 & n1 & n2 & Hu & H & E1).
+    apply uniq_some in Hu. destruct Hu as (Hu & E2).
+    apply bind_some in H. destruct H as (u1 & st2 & n3 & n4 & He & H & E3).
+    apply emit_some in He. destruct He as (E4 & E5). subst.
+    unfold attr_tensor0 in Hc.
+    destruct (sem "" "Constant" [(akind_attr k, ARef a)] []) as [[|c0 [|]]|] eqn:Es; try discriminate.
+    assert (R0 : run ρ [node1 "Constant" [] r [(akind_attr k, ARef a)]] = Some ((r, c0) :: ρ)).
+    { eapply run_plain with (vs := []) (rs := [c0]); [intros _; reflexivity | reflexivity | exact Es | reflexivity]. }
+    destruct k.
+    - inversion Hc; subst c0.
+      apply bind_some in H. destruct H as (u2 & st3 & n5 & n6 & Hm & Hr & E6).
+      apply mark_castable_some in Hm. destruct Hm as (E7 & E8).
+      apply ret_some in Hr. destruct Hr as (E9 & E10 & E11). subst. cbn [app].
+      exists ((r, c) :: ρ). split; [exact R0 | split].
+      + split; [cbn; rewrite String.eqb_refl; reflexivity | left; reflexivity].
+      + eapply grows_fresh_castable; eassumption.
+    - inversion Hc; subst c0.
+      apply bind_some in H. destruct H as (u2 & st3 & n5 & n6 & Hm & Hr & E6).
+      apply mark_castable_some in Hm. destruct Hm as (E7 & E8).
+      apply ret_some in Hr. destruct Hr as (E9 & E10 & E11). subst. cbn [app].
+      exists ((r, c) :: ρ). split; [exact R0 | split].
+      + split; [cbn; rewrite String.eqb_refl; reflexivity | left; reflexivity].
+      + eapply grows_fresh_castable; eassumption.
+    - destruct (sem "" "Cast" [("to", AInt 9)] [Some c0]) as [[|cb [|]]|] eqn:Ec; try discriminate.
+      inversion Hc; subst cb.
+      apply bind_some in H. destruct H as (rb & st3 & n5 & n6 & Hub & H & E6).
+      apply uniq_some in Hub. destruct Hub as (Hub & E7).
+      apply bind_some in H. destruct H as (u2 & st4 & n7 & n8 & Hm & H & E8).
+      apply mark_castable_some in Hm. destruct Hm as (E9 & E10).
+      apply bind_some in H. destruct H as (u3 & st5 & n9 & n10 & He & Hr & E11).
+      apply emit_some in He. destruct He as (E12 & E13).
+      apply ret_some in Hr. destruct Hr as (E14 & E15 & E16). subst. cbn [app].
+      destruct (grows_fresh ρ st a r st1 c0 Hok Hu) as [G1 _].
+      pose proof (grows_fresh_castable ((r, c0) :: ρ) st1 _ rb st3 c (proj2 (proj2 (proj2 G1))) Hub) as G2.
+      exists ((rb, c) :: (r, c0) :: ρ). split; [|split].
+      + eapply run_two; [exact R0|].
+        eapply run_plain with (vs := [Some c0]) (rs := [c]); [intros _; reflexivity | | exact Ec | reflexivity].
+        cbn. rewrite String.eqb_refl. reflexivity.
+      + split; [cbn; rewrite String.eqb_refl; reflexivity | left; reflexivity].
+      + eapply grows_trans; eassumption.
+  Qed.
+
+  Definition expr_sound_a (e : expr) : Prop :=
+    expr_ok e = true -> forall sc target st n st' nodes pe ρ pv,
+    tr_expr globals sc target e st = Some (n, st', nodes) ->
+    inva pe sc ρ st -> eval_expr pe e = Some pv ->
+    exists ρ', run ρ nodes = Some ρ' /\ rel ρ' (ts_castable st') pv n /\ grows ρ ρ' st st'.
+
+  Lemma tr_args_sound_a : forall args,
+    Forall (fun o => match o with Some a => expr_sound_a a | None => True end) args ->
+    (fix go (l : list (option expr)) : bool :=
+       match l with [] => true | Some a :: t => expr_ok a && go t | None :: t => go t end) args = true ->
+    forall sc st vals st' nodes pe ρ pvs,
+    tr_args sc args st = Some (vals, st', nodes) -> inva pe sc ρ st -> eval_args pe args = Some pvs ->
+    exists ρ', run ρ nodes = Some ρ' /\ Forall2 (orel ρ' (ts_castable st')) pvs vals /\ grows ρ ρ' st st'.
+  Proof.
+    induction args as [|[a|] t IH]; intros HF Hok sc st vals st' nodes pe ρ pvs Htr Hinv Hev.
+    - cbn in Htr. apply ret_some in Htr. destruct Htr as (-> & -> & ->). cbn in Hev. inversion Hev; subst.
+      exists ρ. split; [reflexivity|]. split; [constructor | apply grows_refl; apply Hinv].
+    - inversion HF as [|x l Ha Ht]; subst. apply andb_true_iff in Hok. destruct Hok as [Hoa Hot].
+      cbn [tr_args] in Htr.
+      apply bind_some in Htr. destruct Htr as (v & st1 & n1 & n2 & Hta & Htr & ->).
+      apply bind_some in Htr. destruct Htr as (vs & st2 & n3 & n4 & Htt & Hr & ->).
+      apply ret_some in Hr. destruct Hr as (-> & -> & ->).
+      cbn [eval_args] in Hev.
+      destruct (eval_expr pe a) as [pv|] eqn:Ea; [|discriminate].
+      fold (eval_args pe) in Hev. destruct (eval_args pe t) as [pt|] eqn:Et; [|discriminate].
+      inversion Hev; subst.
+      destruct (Ha Hoa sc None st v st1 n1 pe ρ pv Hta Hinv Ea) as (ρ1 & R1 & Rv & G1).
+      destruct (IH Ht Hot sc st1 vs st2 n3 pe ρ1 pt Htt (inva_grows _ _ _ _ _ _ Hinv G1) Et) as (ρ2 & R2 & F2 & G2).
+      exists ρ2. split; [|split].
+      + rewrite app_nil_r, run_app, R1. exact R2.
+      + constructor; [|exact F2]. cbn. eapply rel_grows; [exact G2 | apply G1 | exact Rv].
+      + eapply grows_trans; eassumption.
+    - inversion HF as [|x l Ha Ht]; subst.
+      cbn [tr_args] in Htr.
+      apply bind_some in Htr. destruct Htr as (vs & st2 & n3 & n4 & Htt & Hr & ->).
+      apply ret_some in Hr. destruct Hr as (-> & -> & ->).
+      cbn [eval_args] in Hev. fold (eval_args pe) in Hev.
+      destruct (eval_args pe t) as [pt|] eqn:Et; [|discriminate]. inversion Hev; subst.
+      destruct (IH Ht Hok sc st vs st2 n3 pe ρ pt Htt Hinv Et) as (ρ2 & R2 & F2 & G2).
+      exists ρ2. split; [|split].
+      + rewrite app_nil_r. exact R2.
+      + constructor; [exact I | exact F2].
+      + exact G2.
+  Qed.
+
+  Theorem tr_expr_sound_a : forall e, expr_sound_a e.
+  Proof.
+    apply expr_ind'; unfold expr_sound_a.
+    - (* EVar *)
+      intros x _ sc target st n st' nodes pe ρ pv Htr Hinv Hev. cbn [tr_expr] in Htr. cbn [PySem.eval_expr] in Hev.
+      unfold py_var in Htr. destruct Hinv as (I1 & I2 & I3).
+      destruct (plookup V pe x) as [pv0|] eqn:Ep.
+      + inversion Hev; subst. destruct (I1 x pv Ep) as ([m|k] & Hm & R); rewrite Hm in Htr.
+        * cbn [to_onnx_var] in Htr.
+          apply ret_some in Htr. destruct Htr as (-> & -> & ->).
+          exists ρ. split; [reflexivity|]. split; [exact R | apply grows_refl; exact I3].
+        * destruct R as (l & c & -> & Hc). eapply attr_var_sound; eassumption.
+      + rewrite (I2 x Ep) in Htr. destruct (lookup_assoc x globals) as [l|]; [|discriminate].
+        destruct (const_val V sem l) as [c|] eqn:Ec; [|discriminate]. inversion Hev; subst.
+        eapply emit_const_sound; eassumption.
+    - (* ELit *)
+      intros l _ sc target st n st' nodes pe ρ pv Htr Hinv Hev. cbn [tr_expr] in Htr. cbn [PySem.eval_expr] in Hev.
+      destruct (const_val V sem l) as [c|] eqn:Ec; [|discriminate]. inversion Hev; subst.
+      eapply emit_const_sound; [apply Hinv | exact Htr | exact Ec].
+    - (* EUn *)
+      intros op a IHa Hok sc target st n st' nodes pe ρ pv Htr Hinv Hev. cbn [expr_ok] in Hok.
+      cbn [tr_expr] in Htr. cbn [PySem.eval_expr] in Hev.
+      destruct (lookup_assoc op primop_map) as [opname|] eqn:Eop; [|discriminate].
+      apply bind_some in Htr. destruct Htr as (v & st1 & n1 & n2 & Hta & Htr & ->).
+      unfold node1 in Htr. apply finish_inv in Htr. destruct Htr as (Hu & ->).
+      destruct (eval_expr pe a) as [[va|l c]|] eqn:Ea; try discriminate.
+      destruct (sem1 V sem "" opname [] [Some va]) as [res|] eqn:Es; [|discriminate]. inversion Hev; subst.
+      destruct (IHa Hok sc None st v st1 n1 pe ρ (PT V va) Hta Hinv Ea) as (ρ1 & R1 & Rv & G1).
+      destruct (emit_op_sound "" opname [] [Some v] [Some va] res st1 n st' ρ1 (target_or_tmp target)) as (ρ2 & R2 & Rr & G2);
+        [apply G1 | intros _; eapply primop_plain; exact Eop | cbn; rewrite (proj1 Rv); reflexivity | exact Es | exact Hu |].
+      exists ρ2. split; [rewrite run_app, R1; exact R2 | split; [exact Rr | eapply grows_trans; eassumption]].
+    - (* EBin *)
+      intros op a b IHa IHb Hok sc target st n st' nodes pe ρ pv Htr Hinv Hev. cbn [expr_ok] in Hok.
+      apply andb_true_iff in Hok. destruct Hok as [Hoa Hob].
+      cbn [tr_expr] in Htr. cbn [PySem.eval_expr] in Hev.
+      destruct (lookup_assoc op primop_map) as [opname|] eqn:Eop; [|discriminate].
+      cbv zeta in Htr. cbv zeta in Hev.
+      apply bind_some in Htr. destruct Htr as (vl & st1 & n1 & n2 & Hta & Htr & ->).
+      apply bind_some in Htr. destruct Htr as (vr & st2 & n3 & n4 & Htb & Htr & ->).
+      apply bind_some in Htr. destruct Htr as (args' & st3 & n5 & n6 & Hsc & Htr & ->).
+      unfold node1 in Htr. apply finish_inv in Htr. destruct Htr as (Hu & ->).
+      destruct (eval_expr pe a) as [va|] eqn:Ea; [|discriminate].
+      destruct (eval_expr pe b) as [vb|] eqn:Eb; [|discriminate].
+      destruct (is_scalar V va && is_scalar V vb); [discriminate|].
+      destruct (promoted V sem opname [Some va; Some vb]) as [pargs|] eqn:Ep; [|discriminate].
+      destruct (sem1 V sem "" opname (binop_attrs op b) pargs) as [res|] eqn:Es; [|discriminate]. inversion Hev; subst.
+      destruct (IHa Hoa sc None st vl st1 n1 pe ρ va Hta Hinv Ea) as (ρ1 & R1 & Rl & G1).
+      pose proof (inva_grows _ _ _ _ _ _ Hinv G1) as Hinv1.
+      destruct (IHb Hob sc None st1 vr st2 n3 pe ρ1 vb Htb Hinv1 Eb) as (ρ2 & R2 & Rr & G2).
+      assert (F : Forall2 (orel ρ2 (ts_castable st2)) [Some va; Some vb] [Some vl; Some vr]).
+      { constructor; [cbn; eapply rel_grows; [exact G2 | apply G1 | exact Rl] | constructor; [exact Rr | constructor]]. }
+      destruct (static_cast_sound opname _ _ st2 args' st3 n5 ρ2 pargs (proj2 (proj2 (proj2 G2))) F Hsc Ep) as (ρ3 & R3 & Hlk & G3).
+      destruct (emit_op_sound "" opname (binop_attrs op b) args' pargs res st3 n st' ρ3 (target_or_tmp target)) as (ρ4 & R4 & Rres & G4);
+        [apply G3 | intros _; eapply primop_plain; exact Eop | exact Hlk | exact Es | exact Hu |].
+      exists ρ4. split; [|split; [exact Rres|]].
+      + rewrite run_app, R1, run_app, R2, run_app, R3. exact R4.
+      + eapply grows_trans; [exact G1|]. eapply grows_trans; [exact G2|]. eapply grows_trans; eassumption.
+    - (* ECmp *)
+      intros op a b IHa IHb Hok sc target st n st' nodes pe ρ pv Htr Hinv Hev. cbn [expr_ok] in Hok.
+      apply andb_true_iff in Hok. destruct Hok as [Hoa Hob].
+      cbn [tr_expr] in Htr. cbn [PySem.eval_expr] in Hev.
+      destruct (lookup_assoc op primop_map) as [opname|] eqn:Eop; [|discriminate].
+      apply bind_some in Htr. destruct Htr as (vl & st1 & n1 & n2 & Hta & Htr & ->).
+      apply bind_some in Htr. destruct Htr as (vr & st2 & n3 & n4 & Htb & Htr & ->).
+      destruct (eval_expr pe a) as [va|] eqn:Ea; [|discriminate].
+      destruct (eval_expr pe b) as [vb|] eqn:Eb; [|discriminate].
+      destruct (is_scalar V va && is_scalar V vb); [discriminate|].
+      destruct (IHa Hoa sc None st vl st1 n1 pe ρ va Hta Hinv Ea) as (ρ1 & R1 & Rl & G1).
+      pose proof (inva_grows _ _ _ _ _ _ Hinv G1) as Hinv1.
+      destruct (IHb Hob sc None st1 vr st2 n3 pe ρ1 vb Htb Hinv1 Eb) as (ρ2 & R2 & Rr & G2).
+      assert (F : Forall2 (orel ρ2 (ts_castable st2)) [Some va; Some vb] [Some vl; Some vr]).
+      { constructor; [cbn; eapply rel_grows; [exact G2 | apply G1 | exact Rl] | constructor; [exact Rr | constructor]]. }
+      destruct (String.eqb opname "NotEqual") eqn:Ene.
+      + apply bind_some in Htr. destruct Htr as (args' & st3 & n5 & n6 & Hsc & Htr & ->).
+        apply bind_some in Htr. destruct Htr as (tmp & st4 & n7 & n8 & Hu1 & Htr & ->).
+        apply uniq_some in Hu1. destruct Hu1 as (Hu1 & ->).
+        apply bind_some in Htr. destruct Htr as (u & st5 & n9 & n10 & He & Htr & ->).
+        apply emit_some in He. destruct He as (-> & ->).
+        unfold node1 in Htr. apply finish_inv in Htr. destruct Htr as (Hu2 & ->).
+        destruct (promoted V sem "Equal" [Some va; Some vb]) as [pargs|] eqn:Ep; [|discriminate].
+        destruct (sem1 V sem "" "Equal" [] pargs) as [teq|] eqn:Es1; [|discriminate].
+        destruct (sem1 V sem "" "Not" [] [Some teq]) as [res|] eqn:Es2; [|discriminate]. inversion Hev; subst.
+        destruct (static_cast_sound "Equal" _ _ st2 args' st3 n5 ρ2 pargs (proj2 (proj2 (proj2 G2))) F Hsc Ep) as (ρ3 & R3 & Hlk & G3).
+        destruct (emit_op_sound "" "Equal" [] args' pargs teq st3 tmp st4 ρ3 "tmp") as (ρ4 & R4 & Rt & G4);
+          [apply G3 | intros _; reflexivity | exact Hlk | exact Es1 | exact Hu1 |].
+        destruct (emit_op_sound "" "Not" [] [Some tmp] [Some teq] res st4 n st' ρ4 (target_or_tmp target)) as (ρ5 & R5 & Rres & G5);
+          [apply G4 | intros _; reflexivity | cbn; rewrite (proj1 Rt); reflexivity | exact Es2 | exact Hu2 |].
+        exists ρ5. split; [|split; [exact Rres|]].
+        * unfold node1. rewrite run_app, R1, run_app, R2, run_app, R3. cbn [app]. eapply run_two; [exact R4 | exact R5].
+        * eapply grows_trans; [exact G1|]. eapply grows_trans; [exact G2|]. eapply grows_trans; [exact G3|]. eapply grows_trans; eassumption.
+      + apply bind_some in Htr. destruct Htr as (args' & st3 & n5 & n6 & Hsc & Htr & ->).
+        unfold node1 in Htr. apply finish_inv in Htr. destruct Htr as (Hu & ->).
+        destruct (promoted V sem opname [Some va; Some vb]) as [pargs|] eqn:Ep; [|discriminate].
+        destruct (sem1 V sem "" opname [] pargs) as [res|] eqn:Es; [|discriminate]. inversion Hev; subst.
+        destruct (static_cast_sound opname _ _ st2 args' st3 n5 ρ2 pargs (proj2 (proj2 (proj2 G2))) F Hsc Ep) as (ρ3 & R3 & Hlk & G3).
+        destruct (emit_op_sound "" opname [] args' pargs res st3 n st' ρ3 (target_or_tmp target)) as (ρ4 & R4 & Rres & G4);
+          [apply G3 | intros _; eapply primop_plain; exact Eop | exact Hlk | exact Es | exact Hu |].
+        exists ρ4. split; [|split; [exact Rres|]].
+        * rewrite run_app, R1, run_app, R2, run_app, R3. exact R4.
+        * eapply grows_trans; [exact G1|]. eapply grows_trans; [exact G2|]. eapply grows_trans; eassumption.
+    - (* ECall *)
+      intros f args kws HF Hok sc target st n st' nodes pe ρ pv Htr Hinv Hev.
+      cbn [expr_ok] in Hok. apply andb_true_iff in Hok. destruct Hok as [Hof Hoargs].
+      rewrite tr_expr_call_eq in Htr. rewrite eval_expr_call_eq in Hev.
+      apply bind_some in Htr. destruct Htr as (vals & st1 & n1 & n2 & Hta & Htr & ->).
+      destruct (eval_args pe args) as [pvs|] eqn:Ea; [|discriminate].
+      destruct (tr_args_sound_a args HF Hoargs sc st vals st1 n1 pe ρ pvs Hta Hinv Ea) as (ρ1 & R1 & F1 & G1).
+      destruct f as [name|name].
+      + apply bind_some in Htr. destruct Htr as (args' & st2 & n3 & n4 & Hsc & Htr & ->).
+        apply finish_inv in Htr. destruct Htr as (Hu & ->).
+        destruct (promoted V sem name pvs) as [pargs|] eqn:Ep; [|discriminate].
+        destruct (sem1 V sem "" name (map kw_attr kws) pargs) as [res|] eqn:Es; [|discriminate]. inversion Hev; subst.
+        destruct (static_cast_sound name _ _ st1 args' st2 n3 ρ1 pargs (proj2 (proj2 (proj2 G1))) F1 Hsc Ep) as (ρ2 & R2 & Hlk & G2).
+        destruct (emit_op_sound "" name (map kw_attr kws) args' pargs res st2 n st' ρ2 (target_or_tmp target)) as (ρ3 & R3 & Rres & G3);
+          [apply G2 | intros _; apply negb_true_iff; exact Hof | exact Hlk | exact Es | exact Hu |].
+        exists ρ3. split; [|split; [exact Rres|]].
+        * rewrite run_app, R1, run_app, R2. exact R3.
+        * eapply grows_trans; [exact G1|]. eapply grows_trans; eassumption.
+      + apply finish_inv in Htr. destruct Htr as (Hu & ->).
+        destruct (sem1 V sem "this" name (map kw_attr kws) (map (option_map (tensor_of V)) pvs)) as [res|] eqn:Es; [|discriminate].
+        inversion Hev; subst.
+        destruct (emit_op_sound "this" name (map kw_attr kws) vals (map (option_map (tensor_of V)) pvs) res st1 n st' ρ1 (target_or_tmp target)) as (ρ3 & R3 & Rres & G3);
+          [apply G1 | intros D; discriminate D | eapply lookup_opts_rel; exact F1 | exact Es | exact Hu |].
+        exists ρ3. split; [|split; [exact Rres|]].
+        * rewrite run_app, R1. exact R3.
+        * eapply grows_trans; eassumption.
+  Qed.
+
+  Lemma tr_returns_sound_a : forall es, forallb expr_ok es = true -> forall sc tuple i outs st outs' st' nodes pe ρ vs vs0,
+    tr_returns globals false inputs sc tuple i es outs st = Some (outs', st', nodes) ->
+    inva pe sc ρ st -> eval_rets pe es = Some vs -> lookups ρ outs = Some vs0 ->
+    exists ρ', run ρ nodes = Some ρ' /\ lookups ρ' outs' = Some (vs0 ++ vs) /\ grows ρ ρ' st st'.
+  Proof.
+    induction es as [|e t IH]; intros Hok sc tuple i outs st outs' st' nodes pe ρ vs vs0 Htr Hinv Hev Hl.
+    - cbn in Htr. apply ret_some in Htr. destruct Htr as (-> & -> & ->). cbn in Hev. inversion Hev; subst.
+      exists ρ. rewrite app_nil_r. split; [reflexivity|]. split; [exact Hl | apply grows_refl; apply Hinv].
+    - cbn [forallb] in Hok. apply andb_true_iff in Hok. destruct Hok as [Hoe Hot].
+      cbn [tr_returns] in Htr. cbv zeta in Htr.
+      apply bind_some in Htr. destruct Htr as (v & st1 & n1 & n2 & Hte & Htr & ->).
+      apply bind_some in Htr. destruct Htr as (v1 & st2 & n3 & n4 & Hc1 & Htr & ->).
+      apply bind_some in Htr. destruct Htr as (v2 & st3 & n5 & n6 & Hc2 & Htr & ->).
+      cbn [eval_rets] in Hev. destruct (eval_expr pe e) as [pv|] eqn:Ee; [|discriminate].
+      fold (eval_rets pe) in Hev. destruct (eval_rets pe t) as [vt|] eqn:Et; [|discriminate]. inversion Hev; subst.
+      destruct (tr_expr_sound_a e Hoe sc _ st v st1 n1 pe ρ pv Hte Hinv Ee) as (ρ1 & R1 & Rv & G1).
+      destruct (maybe_copy_sound _ _ v st1 v1 st2 n3 ρ1 (tensor_of V pv) (proj2 (proj2 (proj2 G1))) (rel_lookup _ _ _ _ Rv) Hc1)
+        as (ρ2 & R2 & L2 & G2).
+      destruct (maybe_copy_sound _ _ v1 st2 v2 st3 n5 ρ2 (tensor_of V pv) (proj2 (proj2 (proj2 G2))) L2 Hc2)
+        as (ρ3 & R3 & L3 & G3).
+      assert (G13 : grows ρ ρ3 st st3).
+      { eapply grows_trans; [exact G1|]. eapply grows_trans; eassumption. }
+      pose proof (lookups_grows _ _ _ _ _ _ (proj2 (proj2 Hinv)) G13 Hl) as Hl3.
+      destruct (IH Hot sc tuple (S i) (outs ++ [v2]) st3 outs' st' n6 pe ρ3 vt (vs0 ++ [tensor_of V pv]) Htr
+                  (inva_grows _ _ _ _ _ _ Hinv G13) Et (lookups_snoc _ _ _ _ _ Hl3 L3)) as (ρ4 & R4 & L4 & G4).
+      exists ρ4. split; [|split].
+      + rewrite run_app, R1, run_app, R2, run_app, R3. exact R4.
+      + rewrite L4. rewrite <- app_assoc. reflexivity.
+      + eapply grows_trans; eassumption.
+  Qed.
+
+  Lemma inva_assign : forall pe sc ρ st x pv n,
+    inva pe sc ρ st -> rel ρ (ts_castable st) pv n -> inva ((x, pv) :: pe) (bind_var x (BV n) sc) ρ st.
+  Proof.
+    intros pe sc ρ st x pv n (I1 & I2 & I3) R. split; [|split; [|exact I3]].
+    - intros y pw H. cbn [plookup] in H. rewrite scopes_find_bind. destruct (String.eqb y x).
+      + inversion H; subst. exists (BV n). split; [reflexivity | exact R].
+      + apply I1. exact H.
+    - intros y H. cbn [plookup] in H. rewrite scopes_find_bind. destruct (String.eqb y x); [discriminate | apply I2; exact H].
+  Qed.
+
+  Lemma inva_bind_all : forall xs names vs pe pe' sc (ρ : env V) st,
+    inva pe sc ρ st -> pbind V xs vs pe = Some pe' ->
+    Forall2 (fun n v => rel ρ (ts_castable st) (PT V v) n) names vs -> List.length names = List.length xs ->
+    inva pe' (bind_all xs names sc) ρ st.
+  Proof.
+    induction xs as [|x t IH]; intros names vs pe pe' sc ρ st Hinv Hp F L.
+    - destruct vs; cbn in Hp; [|discriminate]. inversion Hp; subst. destruct names; [exact Hinv | discriminate].
+    - destruct vs as [|v vt]; cbn [pbind] in Hp; [discriminate|].
+      destruct names as [|n nt]; [discriminate|]. inversion F as [|a b la lb Rn Ft]; subst. cbn [bind_all].
+      eapply IH; [eapply inva_assign; [exact Hinv | exact Rn] | exact Hp | exact Ft | cbn in L; congruence].
+  Qed.
+
+  Lemma tr_call_multi_sound_a : forall f args kws, expr_ok (ECall f args kws) = true ->
+    forall sc xs st names st' nodes pe ρ vs pe',
+    tr_call_multi globals sc (ECall f args kws) xs st = Some (names, st', nodes) ->
+    inva pe sc ρ st -> eval_call_multi V sem globals pe (ECall f args kws) = Some vs -> pbind V xs vs pe = Some pe' ->
+    exists ρ', run ρ nodes = Some ρ' /\ inva pe' (bind_all xs names sc) ρ' st' /\ grows ρ ρ' st st'.
+  Proof.
+    intros f args kws Hok sc xs st names st' nodes pe ρ vs pe' Htr Hinv Hev Hpb.
+    cbn [expr_ok] in Hok. apply andb_true_iff in Hok. destruct Hok as [Hof Hoargs].
+    rewrite tr_call_multi_eq in Htr. rewrite eval_call_multi_eq in Hev.
+    apply bind_some in Htr. destruct Htr as (vals & st1 & n1 & n2 & Hta & Htr & E1).
+    apply bind_some in Htr. destruct Htr as (vals' & st2 & n3 & n4 & Hsc & Htr & E2).
+    apply bind_some in Htr. destruct Htr as (nm & st3 & n5 & n6 & Hm & Htr & E3).
+    apply bind_some in Htr. destruct Htr as (u & st4 & n7 & n8 & He & Hr & E4).
+    apply emit_some in He. destruct He as (E5 & E6).
+    apply ret_some in Hr. destruct Hr as (E7 & E8 & E9). subst.
+    destruct (eval_args pe args) as [pvs|] eqn:Ea; [|discriminate].
+    assert (HF : Forall (fun o => match o with Some a => expr_sound_a a | None => True end) args).
+    { clear. induction args as [|[a|] t IH]; constructor; auto. apply tr_expr_sound_a. }
+    destruct (tr_args_sound_a args HF Hoargs sc st vals st1 n1 pe ρ pvs Hta Hinv Ea) as (ρ1 & R1 & F1 & G1).
+    (* the arguments after static casts, and the values the kernel is applied to *)
+    assert (Hargs : exists ρ2 pargs dom name, run ρ1 n3 = Some ρ2 /\ lookup_opts ρ2 vals' = Some pargs /\ grows ρ1 ρ2 st1 st2 /\
+              sem dom name (map kw_attr kws) pargs = Some vs /\ (dom = "" -> is_ctl name = false) /\
+              dom = (match f with COp _ => "" | CFun _ => "this" end) /\ name = (match f with COp n => n | CFun n => n end)).
+    { destruct f as [name|name].
+      - destruct (promoted V sem name pvs) as [pargs|] eqn:Ep; [|discriminate].
+        destruct (static_cast_sound name _ _ st1 vals' st2 n3 ρ1 pargs (proj2 (proj2 (proj2 G1))) F1 Hsc Ep) as (ρ2 & R2 & Hlk & G2).
+        exists ρ2, pargs, "", name.
+        split; [exact R2|]. split; [exact Hlk|]. split; [exact G2|]. split; [exact Hev|].
+        split; [intros Hd; apply negb_true_iff; exact Hof|]. split; reflexivity.
+      - apply ret_some in Hsc. destruct Hsc as (Ev & Est & En). subst vals' st2 n3.
+        exists ρ1, (map (option_map (tensor_of V)) pvs), "this", name.
+        split; [reflexivity|]. split; [eapply lookup_opts_rel; exact F1|]. split; [apply grows_refl; apply G1|].
+        split; [exact Hev|]. split; [intros D; discriminate D|]. split; reflexivity. }
+    destruct Hargs as (ρ2 & pargs & dom & name & R2 & Hlk & G2 & Hsem & Hplain & Edom & Ename).
+    edestruct (mapM_uniq_sound xs st2) as (En5 & Ln & _ & Hb); [exact (proj2 (proj2 (proj2 G2))) | exact Hm |]. subst n5.
+    assert (Lvs : List.length vs = List.length nm).
+    { rewrite Ln. eapply pbind_length. exact Hpb. }
+    destruct (Hb vs Lvs) as (ρ3 & B3 & G3 & F3).
+    exists ρ3. split; [|split].
+    - rewrite run_app, R1, run_app, R2. cbn [app]. rewrite <- Edom, <- Ename.
+      eapply run_plain; [exact Hplain | | exact Hsem | exact B3].
+      (* the arguments are looked up before the outputs are bound: in ρ2 *)
+      exact Hlk.
+    - eapply inva_bind_all; [| exact Hpb | exact F3 | exact Ln].
+      eapply inva_grows; [exact Hinv|]. eapply grows_trans; [exact G1|]. eapply grows_trans; eassumption.
+    - eapply grows_trans; [exact G1|]. eapply grows_trans; eassumption.
+  Qed.
+
+  Lemma straight_block_sound_a : forall pre, assigns_ok pre = true -> forall es, forallb expr_ok es = true ->
+    forall fu lo sc outs st sc' outs' st' nodes pe ρ f2 vs vs0,
+    tr_stmts (S fu) true (pre ++ [SReturn es]) lo sc outs st = Some ((sc', outs'), st', nodes) ->
+    inva pe sc ρ st ->
+    exec_block (S f2) (pre ++ [SReturn es]) pe = Some (OReturn V vs) ->
+    lookups ρ outs = Some vs0 ->
+    exists ρ', run ρ nodes = Some ρ' /\ lookups ρ' outs' = Some (vs0 ++ vs).
+  Proof.
+    induction pre as [|s t IH]; intros Hpre es Hes fu lo sc outs st sc' outs' st' nodes pe ρ f2 vs vs0 Htr Hinv Hex Hl.
+    - cbn [app] in *. rewrite tr_stmts_return in Htr. rewrite exec_block_return in Hex.
+      apply bind_some in Htr. destruct Htr as (lo_s & st1 & n1 & n2 & Hlift & Htr & ->).
+      apply lift_some in Hlift. destruct Hlift as (_ & -> & ->).
+      apply bind_some in Htr. destruct Htr as (r & st2 & n3 & n4 & Hret & Htr & ->).
+      rewrite tr_stmts_nil in Htr. apply ret_some in Htr. destruct Htr as (E1 & -> & ->).
+      apply bind_some in Hret. destruct Hret as (u & st3 & n5 & n6 & Hg & Hret & ->).
+      assert (Hg' : st3 = st /\ n5 = []).
+      { unfold guard in Hg. destruct (negb (is_nil es)); [apply ret_some in Hg; tauto | discriminate]. }
+      destruct Hg' as (-> & ->).
+      apply bind_some in Hret. destruct Hret as (o & st4 & n7 & n8 & Hrs & Hret & ->).
+      apply ret_some in Hret. destruct Hret as (-> & -> & ->).
+      destruct (eval_rets pe es) as [rv|] eqn:Er; [|discriminate]. inversion Hex; subst.
+      inversion E1; subst.
+      edestruct (tr_returns_sound_a es Hes) as (ρ1 & R1 & L1 & _); [exact Hrs | exact Hinv | exact Er | exact Hl |].
+      exists ρ1. split; [|exact L1]. cbn [app]. rewrite !app_nil_r. exact R1.
+    - destruct s as [x e|xs e| | | | |]; try discriminate Hpre.
+      2: {
+        destruct e as [| | | | |f args kws]; try discriminate Hpre.
+        cbn [assigns_ok] in Hpre. apply andb_true_iff in Hpre. destruct Hpre as [Hoe Hot].
+        cbn [app] in *. rewrite tr_stmts_tuple in Htr. rewrite exec_block_tuple in Hex.
+        apply bind_some in Htr. destruct Htr as (lo_s & st1 & n1 & n2 & Hlift & Htr & ->).
+        apply lift_some in Hlift. destruct Hlift as (_ & -> & ->).
+        apply bind_some in Htr. destruct Htr as (r & st2 & n3 & n4 & Has & Htr & ->).
+        apply bind_some in Has. destruct Has as (nm & st3 & n5 & n6 & Htm & Hret & ->).
+        apply ret_some in Hret. destruct Hret as (-> & -> & ->).
+        destruct (eval_call_multi V sem globals pe (ECall f args kws)) as [cvs|] eqn:Ec; [|discriminate].
+        destruct (pbind V xs cvs pe) as [pe1|] eqn:Epb; [|discriminate].
+        edestruct (tr_call_multi_sound_a f args kws Hoe) as (ρ1 & R1 & Hinv1 & G1); [exact Htm | exact Hinv | exact Ec | exact Epb |].
+        cbn [fst snd] in Htr.
+        edestruct (IH Hot es Hes) as (ρ2 & R2 & L2);
+          [exact Htr | exact Hinv1 | exact Hex | eapply lookups_grows; [apply Hinv | exact G1 | exact Hl] |].
+        exists ρ2. split; [|exact L2]. cbn [app]. rewrite app_nil_r, run_app, R1. exact R2. }
+      cbn [assigns_ok] in Hpre. apply andb_true_iff in Hpre. destruct Hpre as [Hoe Hot].
+      cbn [app] in *. rewrite tr_stmts_assign in Htr. rewrite exec_block_assign in Hex.
+      apply bind_some in Htr. destruct Htr as (lo_s & st1 & n1 & n2 & Hlift & Htr & ->).
+      apply lift_some in Hlift. destruct Hlift as (_ & -> & ->).
+      apply bind_some in Htr. destruct Htr as (r & st2 & n3 & n4 & Has & Htr & ->).
+      apply bind_some in Has. destruct Has as (v & st3 & n5 & n6 & Hte & Hret & ->).
+      apply ret_some in Hret. destruct Hret as (-> & -> & ->).
+      destruct (eval_expr pe e) as [pv|] eqn:Ee; [|discriminate].
+      edestruct (tr_expr_sound_a e Hoe) as (ρ1 & R1 & Rv & G1); [exact Hte | exact Hinv | exact Ee |].
+      cbn [fst snd] in Htr.
+      edestruct (IH Hot es Hes) as (ρ2 & R2 & L2);
+        [exact Htr
+        | eapply inva_assign; [eapply inva_grows; [exact Hinv | exact G1] | exact Rv]
+        | exact Hex
+        | eapply lookups_grows; [apply Hinv | exact G1 | exact Hl] |].
+      exists ρ2. split; [|exact L2]. cbn [app]. rewrite app_nil_r, run_app, R1. exact R2.
+  Qed.
 End S1.
 
 (* ------------------------------------------------------------------ S1: the theorem *)
